@@ -303,18 +303,22 @@ bool Instance::eval(const size_t argc, char* const* argv) {
         return false;
     }
     CScript::const_iterator it = script.begin();
-    while (it != script.end()) {
+    // OP_CODESEPARATOR inside the temporary script must not leave the session pointing into it
+    const CScript::const_iterator saved_pbegincodehash = env->pbegincodehash;
+    bool ok = true;
+    while (ok && it != script.end()) {
         try {
             if (!StepScript(*env, it, &script)) {
                 fprintf(stderr, "Error: %s\n", ScriptErrorString(*env->serror).c_str());
-                return false;
+                ok = false;
             }
         } catch (const std::exception& ex) {
             fprintf(stderr, "Error: exception thrown: %s\n", ex.what());
-            return false;
+            ok = false;
         }
     }
-    return true;
+    env->pbegincodehash = saved_pbegincodehash;
+    return ok;
 }
 
 bool Instance::configure_tx_txin() {
